@@ -8,6 +8,7 @@ import (
 	"os"
 	"strings"
 
+	"golang.org/x/tools/go/callgraph"
 	"golang.org/x/tools/go/ssa"
 
 	"verif/checker/core"
@@ -45,7 +46,8 @@ func init() {
 
 // fields whose length equals another field's of the same struct (frozen premise).
 var e19ParallelFields = map[string]string{
-	"lib/query.View.sortValuesInEachRecord": "lib/query.View.RecordSet",
+	"lib/query.View.sortValuesInEachRecord":     "lib/query.View.RecordSet",
+	"lib/query.View.comparisonKeysInEachRecord": "lib/query.View.RecordSet",
 }
 
 type e19Term struct {
@@ -71,22 +73,9 @@ func e19ObjField(base ssa.Value) (ssa.Value, string, bool) {
 	return fa.X, e19CanonField(e19FieldKey(fa)), true
 }
 
-// e19DenotesLenOf: x is len(obj.f) — builtin len of a load of that field of the
-// same object, or a len getter on the object.
+// e19DenotesLenOf: x is len(obj.f).
 func e19DenotesLenOf(x ssa.Value, obj ssa.Value, fkey string) bool {
-	call, ok := x.(*ssa.Call)
-	if !ok {
-		return false
-	}
-	if b, ok := call.Common().Value.(*ssa.Builtin); ok {
-		if b.Name() != "len" {
-			return false
-		}
-		o2, k2, ok := e19ObjField(call.Common().Args[0])
-		return ok && k2 == fkey && core.SameVal(o2, obj)
-	}
-	key, ok := e19LenGetter(call.Common().StaticCallee(), 0)
-	return ok && e19CanonField(key) == fkey && core.SameVal(call.Common().Args[0], obj)
+	return e19AnySymEq(e19LenSyms(x), []e19Sym{{obj: obj, fkey: fkey}})
 }
 
 // e19ParamIndex: index of parameter p in its function, or -1.
@@ -146,61 +135,593 @@ func e19SameBase(a, b ssa.Value) bool {
 	return core.SameVal(fa.X, fb.X)
 }
 
-// lenGetter: fn is a pure getter returning len(recv.f) (possibly through
-// another such getter); returns the field key.
-func e19LenGetter(fn *ssa.Function, d int) (string, bool) {
-	if fn == nil || d > 3 || len(fn.Blocks) != 1 || len(fn.Params) != 1 {
-		return "", false
-	}
-	rets := core.Returns(fn)
-	if len(rets) != 1 || len(rets[0].Results) != 1 {
-		return "", false
-	}
-	call, ok := rets[0].Results[0].(*ssa.Call)
-	if !ok {
-		return "", false
-	}
-	if b, ok := call.Common().Value.(*ssa.Builtin); ok && b.Name() == "len" {
-		ld, ok := call.Common().Args[0].(*ssa.UnOp)
-		if !ok || ld.Op != token.MUL {
-			return "", false
-		}
-		fa, ok := ld.X.(*ssa.FieldAddr)
-		if !ok || fa.X != fn.Params[0] {
-			return "", false
-		}
-		return e19FieldKey(fa), true
-	}
-	if g := call.Common().StaticCallee(); g != nil && len(call.Common().Args) == 1 && call.Common().Args[0] == fn.Params[0] {
-		return e19LenGetter(g, d+1)
-	}
-	return "", false
+// e19Sym is a symbolic length: len(slice) or len(obj.field).
+type e19Sym struct {
+	slice ssa.Value
+	obj   ssa.Value
+	fkey  string
 }
 
-// denotesLen: x is len(base) — the builtin on the same base, or a len getter on
-// the struct whose field base is loaded from.
-func e19DenotesLen(x ssa.Value, base ssa.Value) bool {
-	call, ok := x.(*ssa.Call)
+func e19SymOfContainer(v ssa.Value) e19Sym {
+	if o, k, ok := e19ObjField(v); ok {
+		return e19Sym{obj: o, fkey: k}
+	}
+	return e19Sym{slice: v}
+}
+
+// e19SameAcross: the same value — also across a closure boundary: two loads of
+// the same captured variable that is assigned exactly once.
+func e19SameAcross(a, b ssa.Value) bool {
+	if core.SameVal(a, b) {
+		return true
+	}
+	la, ok1 := a.(*ssa.UnOp)
+	lb, ok2 := b.(*ssa.UnOp)
+	if !ok1 || !ok2 || la.Op != token.MUL || lb.Op != token.MUL {
+		// a parameter of the enclosing function captured by the closure appears as the cell's only store
+		return e19CellValueIs(a, b) || e19CellValueIs(b, a)
+	}
+	ca, cb := e19CellRoot(la.X), e19CellRoot(lb.X)
+	if ca == nil || ca != cb {
+		return false
+	}
+	vals, complete := core.StoresTo(ca)
+	if complete && len(vals) == 1 {
+		return true
+	}
+	// assigned several times: equal when one load is in the declaring function with no
+	// later assignment there, and the other is in a closure that never assigns it
+	if !complete {
+		return false
+	}
+	al, ok := ca.(*ssa.Alloc)
 	if !ok {
 		return false
 	}
-	if b, ok := call.Common().Value.(*ssa.Builtin); ok {
-		return b.Name() == "len" && e19SameBase(call.Common().Args[0], base)
-	}
-	g := call.Common().StaticCallee()
-	key, ok := e19LenGetter(g, 0)
-	if !ok {
+	var parentLoad, closureLoad *ssa.UnOp
+	switch {
+	case la.Parent() == al.Parent() && lb.Parent() != al.Parent():
+		parentLoad, closureLoad = la, lb
+	case lb.Parent() == al.Parent() && la.Parent() != al.Parent():
+		parentLoad, closureLoad = lb, la
+	default:
 		return false
 	}
-	ld, ok := base.(*ssa.UnOp)
+	for _, r := range *al.Referrers() {
+		if st, ok := r.(*ssa.Store); ok && st.Addr == al && core.Reachable(parentLoad, st, nil) {
+			return false
+		}
+	}
+	// the closure (and closures inside it) must not assign the variable
+	var assigns func(f *ssa.Function) bool
+	assigns = func(f *ssa.Function) bool {
+		for _, fv := range f.FreeVars {
+			if e19RootCell(fv) == ca {
+				for _, r := range *fv.Referrers() {
+					if st, ok := r.(*ssa.Store); ok && st.Addr == fv {
+						return true
+					}
+				}
+			}
+		}
+		for _, af := range f.AnonFuncs {
+			if assigns(af) {
+				return true
+			}
+		}
+		return false
+	}
+	for _, af := range al.Parent().AnonFuncs {
+		if assigns(af) {
+			return false
+		}
+	}
+	_ = closureLoad
+	return true
+}
+
+// e19CellValueIs: x is a load of a once-assigned captured variable whose value is v.
+func e19CellValueIs(x, v ssa.Value) bool {
+	ld, ok := x.(*ssa.UnOp)
 	if !ok || ld.Op != token.MUL {
 		return false
 	}
-	fa, ok := ld.X.(*ssa.FieldAddr)
-	if !ok || e19CanonField(e19FieldKey(fa)) != e19CanonField(key) {
+	c := e19CellRoot(ld.X)
+	if c == nil {
 		return false
 	}
-	return core.SameVal(fa.X, call.Common().Args[0])
+	vals, complete := core.StoresTo(c)
+	return complete && len(vals) == 1 && vals[0] == v
+}
+
+func e19CellRoot(addr ssa.Value) ssa.Value {
+	switch a := addr.(type) {
+	case *ssa.Alloc:
+		return a
+	case *ssa.FreeVar:
+		return e19RootCell(a)
+	}
+	return nil
+}
+
+func e19SymEq(a, b e19Sym) bool {
+	if a.slice != nil || b.slice != nil {
+		if a.slice == nil || b.slice == nil {
+			return false
+		}
+		return e19SameBase(a.slice, b.slice) || e19SameAcross(a.slice, b.slice)
+	}
+	return a.obj != nil && b.obj != nil && a.fkey == b.fkey && e19SameAcross(a.obj, b.obj)
+}
+
+// e19LenSym: the symbolic length an integer value denotes: builtin len, or a
+// chain of pure single-block getters (view.RecordLen() → view.Len() →
+// len(view.RecordSet); view.FieldLen() → view.Header.Len() → len(h)).
+func e19LenSym(x ssa.Value) (e19Sym, bool) {
+	call, ok := x.(*ssa.Call)
+	if !ok {
+		// a once-assigned variable holding a length (fieldLen := len(fields), captured by a closure)
+		if ld, isLd := x.(*ssa.UnOp); isLd && ld.Op == token.MUL {
+			if c := e19CellRoot(ld.X); c != nil {
+				if vals, complete := core.StoresTo(c); complete && len(vals) == 1 {
+					if _, again := vals[0].(*ssa.UnOp); !again {
+						return e19LenSym(vals[0])
+					}
+				}
+			}
+		}
+		return e19Sym{}, false
+	}
+	if b, ok := call.Common().Value.(*ssa.Builtin); ok {
+		if b.Name() != "len" {
+			return e19Sym{}, false
+		}
+		if v := e19RecordOfFixedView(call.Common().Args[0], call); v != nil {
+			return e19Sym{obj: v, fkey: "lib/query.View.Header"}, true
+		}
+		return e19SymOfContainer(call.Common().Args[0]), true
+	}
+	g := call.Common().StaticCallee()
+	if g == nil || len(call.Common().Args) != 1 {
+		return e19Sym{}, false
+	}
+	return e19GetterSym(g, e19Sym{slice: call.Common().Args[0]}, 0)
+}
+
+// e19LenSyms: the symbolic lengths x denotes — e19LenSym, and for the length of a
+// slice that a helper built with one element per element of an argument, also the
+// length of that argument (e19LenAlias).
+func e19LenSyms(x ssa.Value) []e19Sym {
+	var out []e19Sym
+	if s, ok := e19LenSym(x); ok {
+		out = append(out, s)
+	}
+	v := x
+	if ld, isLd := v.(*ssa.UnOp); isLd && ld.Op == token.MUL {
+		if c := e19CellRoot(ld.X); c != nil {
+			if vals, complete := core.StoresTo(c); complete && len(vals) == 1 {
+				v = vals[0]
+			}
+		}
+	}
+	if call, ok := v.(*ssa.Call); ok {
+		if b, ok := call.Common().Value.(*ssa.Builtin); ok && b.Name() == "len" {
+			if arg := e19LenAlias(call.Common().Args[0], call); arg != nil {
+				out = append(out, e19SymOfContainer(arg))
+			}
+		}
+	}
+	return out
+}
+
+func e19AnySymEq(as, bs []e19Sym) bool {
+	for _, a := range as {
+		for _, b := range bs {
+			if e19SymEq(a, b) {
+				return true
+			}
+		}
+	}
+	return false
+}
+
+// e19LenAlias: container is the (successful) result of a csvq helper every
+// successful return of which is a slice made with len(p) of one parameter p —
+// one element per element of the argument (keys := sortKeysOf(records)). Returns
+// the argument, a value of the function that made the call. The container may
+// be read directly or through a once-assigned variable (also from a closure made
+// where the call is known to have succeeded).
+func e19LenAlias(container ssa.Value, at ssa.Instruction) ssa.Value {
+	v := container
+	var okAt []ssa.Instruction // where success has to be known
+	if ld, isLd := v.(*ssa.UnOp); isLd && ld.Op == token.MUL {
+		cell := e19CellRoot(ld.X)
+		if cell == nil {
+			return nil
+		}
+		vals, complete := core.StoresTo(cell)
+		if !complete || len(vals) != 1 {
+			return nil
+		}
+		v = vals[0]
+		al, isAl := cell.(*ssa.Alloc)
+		if !isAl {
+			return nil
+		}
+		if ld.Parent() == al.Parent() {
+			okAt = append(okAt, at)
+		} else {
+			// the reading closure (or the closure chain that leads to it) is made in the declaring function
+			f := ld.Parent()
+			for f != nil && f.Parent() != al.Parent() {
+				f = f.Parent()
+			}
+			if f == nil {
+				return nil
+			}
+			for _, b := range al.Parent().Blocks {
+				for _, in := range b.Instrs {
+					if mc, ok := in.(*ssa.MakeClosure); ok && mc.Fn == f {
+						okAt = append(okAt, mc)
+					}
+				}
+			}
+			if len(okAt) == 0 {
+				return nil
+			}
+		}
+	} else {
+		okAt = append(okAt, at)
+	}
+	var call *ssa.Call
+	idx := 0
+	switch x := v.(type) {
+	case *ssa.Call:
+		call = x
+	case *ssa.Extract:
+		c, ok := x.Tuple.(*ssa.Call)
+		if !ok {
+			return nil
+		}
+		call, idx = c, x.Index
+	default:
+		return nil
+	}
+	f := call.Common().StaticCallee()
+	if f == nil || f.Blocks == nil || f.Pkg == nil || !strings.HasPrefix(f.Pkg.Pkg.Path(), core.ModPath) || len(call.Common().Args) != len(f.Params) {
+		return nil
+	}
+	pi := -1
+	needSuccess := false
+	for _, ret := range core.Returns(f) {
+		if idx >= len(ret.Results) {
+			return nil
+		}
+		if len(ret.Results) > 1 && idx != len(ret.Results)-1 && core.FailureReturn(f, ret) {
+			needSuccess = true
+			continue
+		}
+		for _, rv := range core.ReturnOperand(ret, idx) {
+			if rv == nil {
+				return nil
+			}
+			os := core.Origins(e19ThroughOnceCell(rv), false)
+			if len(os) == 0 {
+				return nil
+			}
+			for _, ro := range os {
+				ms, ok := e19ThroughOnceCell(ro).(*ssa.MakeSlice)
+				if !ok {
+					return nil
+				}
+				lc, ok := ms.Len.(*ssa.Call)
+				if !ok {
+					return nil
+				}
+				if b, isB := lc.Common().Value.(*ssa.Builtin); !isB || b.Name() != "len" {
+					return nil
+				}
+				_, i := e19ParamIndex(e19ThroughOnceCell(lc.Common().Args[0]))
+				if i < 0 || (pi >= 0 && pi != i) {
+					return nil
+				}
+				pi = i
+			}
+		}
+	}
+	if pi < 0 {
+		return nil
+	}
+	if needSuccess {
+		for _, a := range okAt {
+			if a.Parent() != call.Parent() || !core.SuccessKnown(call, a) {
+				return nil
+			}
+		}
+	}
+	return call.Common().Args[pi]
+}
+
+// e19ThroughOnceCell: a load of a local variable that is assigned exactly once (a
+// variable captured by a closure lives in a cell) is the assigned value.
+func e19ThroughOnceCell(v ssa.Value) ssa.Value {
+	for d := 0; d < 3; d++ {
+		ld, ok := v.(*ssa.UnOp)
+		if !ok || ld.Op != token.MUL {
+			return v
+		}
+		al, ok := ld.X.(*ssa.Alloc)
+		if !ok {
+			return v
+		}
+		vals, complete := core.StoresTo(al)
+		if !complete || len(vals) != 1 {
+			return v
+		}
+		v = vals[0]
+	}
+	return v
+}
+
+// e19RecordOfFixedView — premise "a fixed view is rectangular": rec is an
+// element of V.RecordSet and V has been through (*View).Fix — it is the result
+// of lib/query.Select / selectEntity (which end with Fix), or Fix was called on
+// it in this function before `at`. Then len(rec) == len(V.Header). Returns V.
+func e19RecordOfFixedView(rec ssa.Value, at ssa.Instruction) ssa.Value {
+	if core.NamedOf(rec.Type()) != "lib/query.Record" {
+		return nil
+	}
+	os := core.Origins(rec, false)
+	if len(os) != 1 {
+		return nil
+	}
+	ld, ok := os[0].(*ssa.UnOp)
+	if !ok || ld.Op != token.MUL {
+		return nil
+	}
+	ia, ok := ld.X.(*ssa.IndexAddr)
+	if !ok {
+		return nil
+	}
+	v, key, ok := e19ObjField(ia.X)
+	if !ok || key != "lib/query.View.RecordSet" {
+		return nil
+	}
+	if !e19FixedViewAt(v, at, 0) {
+		return nil
+	}
+	return v
+}
+
+// e19FixedViewAt: the *View v has been through (*View).Fix where `at` executes:
+// Fix was called on it in this function (and did not fail), it is the successful
+// result of a function every successful return of which yields such a view
+// (checked, e.g. lib/query.Select), or it is the parameter of an unexported
+// helper and every call site passes such a view.
+func e19FixedViewAt(v ssa.Value, at ssa.Instruction, d int) bool {
+	if d > 6 {
+		return false
+	}
+	os := core.Origins(v, false)
+	if len(os) == 0 {
+		return false
+	}
+	for _, o := range os {
+		if call, idx, ok := core.ExtractOf(o); ok && idx == 0 {
+			if f := call.Common().StaticCallee(); f != nil && e19ReturnsFixedView(f, d+1) && (core.SuccessKnown(call, at) || e19ErrHandedOn(call, at)) {
+				continue
+			}
+		}
+		if e19FixCalledBefore(v, at) {
+			continue
+		}
+		if par, ok := o.(*ssa.Parameter); ok {
+			fn := par.Parent()
+			_, pi := e19ParamIndex(par)
+			if fn.Object() != nil && !fn.Object().Exported() && pi >= 0 && fn.Parent() == nil {
+				edges := fixedViewCallers(fn)
+				good := len(edges) > 0
+				for _, e := range edges {
+					if e.Site == nil || e.Site.Common().StaticCallee() != fn || pi >= len(e.Site.Common().Args) || !e19FixedViewAt(e.Site.Common().Args[pi], e.Site, d+1) {
+						good = false
+						break
+					}
+				}
+				if good {
+					continue
+				}
+			}
+		}
+		return false
+	}
+	return true
+}
+
+// fixedViewCallers is set by the rules that use the prover (the call graph lives in the rule context).
+var fixedViewCallers = func(fn *ssa.Function) []*callgraph.Edge { return nil }
+
+func e19FixCalledBefore(v ssa.Value, at ssa.Instruction) bool {
+	for _, b := range at.Parent().Blocks {
+		for _, in := range b.Instrs {
+			c2, ok := in.(*ssa.Call)
+			if !ok {
+				continue
+			}
+			f := c2.Common().StaticCallee()
+			if f == nil || f.Name() != "Fix" || core.NamedOf(f.Signature.Recv().Type()) != "lib/query.View" {
+				continue
+			}
+			if len(c2.Common().Args) > 0 && core.SameVal(c2.Common().Args[0], v) && core.Dominates(c2, at) && (at == ssa.Instruction(c2) || e19ErrNotKnownSet(c2, at)) {
+				return true
+			}
+		}
+	}
+	return false
+}
+
+// e19ErrNotKnownSet: the error returned by the Fix call is known nil at `at`, or `at` is a return
+// that hands the error on together with the view (the caller tests it).
+func e19ErrNotKnownSet(fix *ssa.Call, at ssa.Instruction) bool {
+	if core.ErrKnownNilAt(fix, at) {
+		return true
+	}
+	if ret, ok := at.(*ssa.Return); ok && len(ret.Results) == 2 {
+		for _, rv := range core.ReturnOperand(ret, 1) {
+			if rv != ssa.Value(fix) {
+				return false
+			}
+		}
+		return true
+	}
+	return false
+}
+
+// e19ErrHandedOn: `at` is a return that hands the error of this call on as its own
+// error result (return f(…) / v, err := f(…); return v, err): whoever relies on the
+// result tests that error.
+func e19ErrHandedOn(call *ssa.Call, at ssa.Instruction) bool {
+	ret, ok := at.(*ssa.Return)
+	if !ok || len(ret.Results) != 2 {
+		return false
+	}
+	ops := core.ReturnOperand(ret, 1)
+	if len(ops) == 0 {
+		return false
+	}
+	for _, rv := range ops {
+		if rv == nil {
+			return false
+		}
+		c2, idx, ok := core.ExtractOf(rv)
+		if !ok || c2 != call || idx != 1 {
+			return false
+		}
+	}
+	return true
+}
+
+var e19FixedProducers = map[*ssa.Function]int{}
+
+// e19ReturnsFixedView: f returns (*View, error) and on every return that is not a
+// failure the view has been through Fix (in f, or it is the result of such a function).
+func e19ReturnsFixedView(f *ssa.Function, d int) bool {
+	if st, ok := e19FixedProducers[f]; ok {
+		return st == 1 // 2: being evaluated (a cycle proves nothing), 0: refuted
+	}
+	e19FixedProducers[f] = 2
+	ok := func() bool {
+		if d > 6 || f.Blocks == nil || f.Pkg == nil || f.Pkg.Pkg.Path() != core.ModPath+"/lib/query" {
+			return false
+		}
+		res := f.Signature.Results()
+		if res.Len() != 2 || core.NamedOf(res.At(0).Type()) != "lib/query.View" || !core.IsErrorType(res.At(1).Type()) {
+			return false
+		}
+		n := 0
+		for _, ret := range core.Returns(f) {
+			if core.FailureReturn(f, ret) {
+				continue
+			}
+			for _, rv := range core.ReturnOperand(ret, 0) {
+				if rv == nil {
+					return false
+				}
+				if core.IsNilConst(rv) {
+					continue
+				}
+				if !e19FixedViewAt(rv, ret, d) {
+					if os.Getenv("CSVQSA_TRACE_FIX") != "" {
+						fmt.Fprintf(os.Stderr, "fixedview: %s: return operand %s (%T) not fixed, d=%d\n", f.Name(), rv.Name(), rv, d)
+					}
+					return false
+				}
+				n++
+			}
+		}
+		return n > 0
+	}()
+	if ok {
+		e19FixedProducers[f] = 1
+	} else if d <= 1 {
+		e19FixedProducers[f] = 0 // a verdict reached at the top is final
+	} else {
+		delete(e19FixedProducers, f) // reached inside another evaluation (cycle, depth): ask again
+	}
+	return ok
+}
+
+// e19GetterSym evaluates a pure one-parameter getter whose result is a length;
+// arg describes the actual argument: a value (in .slice) or a field of an object.
+func e19GetterSym(g *ssa.Function, arg e19Sym, d int) (e19Sym, bool) {
+	if g == nil || d > 3 || len(g.Blocks) != 1 || len(g.Params) != 1 {
+		return e19Sym{}, false
+	}
+	rets := core.Returns(g)
+	if len(rets) != 1 || len(rets[0].Results) != 1 {
+		return e19Sym{}, false
+	}
+	call, ok := rets[0].Results[0].(*ssa.Call)
+	if !ok || len(call.Common().Args) != 1 {
+		return e19Sym{}, false
+	}
+	// the callee-side argument expression: param0, or a field of param0
+	var inner e19Sym
+	switch a := call.Common().Args[0].(type) {
+	case *ssa.Parameter:
+		if a != g.Params[0] {
+			return e19Sym{}, false
+		}
+		inner = arg
+	case *ssa.UnOp:
+		fa, ok := a.X.(*ssa.FieldAddr)
+		if a.Op != token.MUL || !ok || fa.X != g.Params[0] || arg.slice == nil {
+			// a load of the spilled value receiver: `*param-cell`
+			if al, isAl := a.X.(*ssa.Alloc); isAl && a.Op == token.MUL {
+				vals, complete := core.StoresTo(al)
+				if complete && len(vals) == 1 && vals[0] == g.Params[0] {
+					inner = arg
+					break
+				}
+			}
+			return e19Sym{}, false
+		}
+		inner = e19Sym{obj: arg.slice, fkey: e19CanonField(e19FieldKey(fa))}
+	default:
+		return e19Sym{}, false
+	}
+	if b, ok := call.Common().Value.(*ssa.Builtin); ok {
+		if b.Name() != "len" {
+			return e19Sym{}, false
+		}
+		if inner.slice != nil {
+			return e19SymOfContainer(inner.slice), true
+		}
+		return inner, true
+	}
+	return e19GetterSym(call.Common().StaticCallee(), inner, d+1)
+}
+
+// denotesLen: x is len(base).
+func e19DenotesLen(x ssa.Value, base ssa.Value) bool {
+	bs := []e19Sym{e19SymOfContainer(base)}
+	if bi, ok := base.(ssa.Instruction); ok {
+		if arg := e19LenAlias(base, bi); arg != nil {
+			bs = append(bs, e19SymOfContainer(arg))
+		}
+	}
+	return e19AnySymEq(e19LenSyms(x), bs)
+}
+
+// e19LenGetter (kept for callers that only need the field key of a receiver getter).
+func e19LenGetter(fn *ssa.Function, d int) (string, bool) {
+	if fn == nil || len(fn.Params) != 1 {
+		return "", false
+	}
+	s, ok := e19GetterSym(fn, e19Sym{slice: fn.Params[0]}, d)
+	if !ok || s.obj != fn.Params[0] {
+		return "", false
+	}
+	return s.fkey, true
 }
 
 func (p *e19Prover) matches(x ssa.Value, t e19Term) bool {
@@ -212,7 +733,11 @@ func (p *e19Prover) matches(x ssa.Value, t e19Term) bool {
 		return p.matches(b.X, e19Term{val: t.val, base: t.base, obj: t.obj, fkey: t.fkey})
 	}
 	if t.val != nil {
-		return core.SameVal(x, t.val)
+		if core.SameVal(x, t.val) {
+			return true
+		}
+		// two spellings of the same length: len(h) and h.Len(), fieldLen := len(fields) …
+		return e19AnySymEq(e19LenSyms(x), e19LenSyms(t.val))
 	}
 	if t.base == nil {
 		return e19DenotesLenOf(x, t.obj, t.fkey)
@@ -233,6 +758,131 @@ func (t e19Term) objTerm() (e19Term, bool) {
 		return t, false
 	}
 	return e19Term{obj: o, fkey: k}, true
+}
+
+// e19MadeLens: when every origin of the slice value is make(T, L) — in this
+// function, in the enclosing function (captured variable), or in a csvq
+// constructor returning make(T, param) — the SSA values L (in the current
+// function's terms); nil otherwise.
+func e19MadeLens(c *Ctx, base ssa.Value) []ssa.Value {
+	var out []ssa.Value
+	base = e19ThroughLocalStore(base)
+	os := core.Origins(base, false)
+	if len(os) == 0 {
+		return nil
+	}
+	for _, o := range os {
+		o = e19ThroughLocalStore(o)
+		switch x := o.(type) {
+		case *ssa.MakeSlice:
+			if x.Parent() != e19ParentOf(base) {
+				// made in the enclosing function: usable only when the length is a symbolic
+				// length or a constant (compared across the closure boundary by e19SymEq)
+				if _, isC := x.Len.(*ssa.Const); !isC {
+					if _, ok := e19LenSym(x.Len); !ok {
+						return nil
+					}
+				}
+			}
+			out = append(out, x.Len)
+		case *ssa.Slice:
+			// x[:h] has exactly h elements
+			if x.Low != nil || x.High == nil {
+				return nil
+			}
+			out = append(out, x.High)
+		case *ssa.Call:
+			f := x.Common().StaticCallee()
+			if f == nil || f.Blocks == nil || len(x.Common().Args) != len(f.Params) {
+				return nil
+			}
+			pi := -1
+			for _, ret := range core.Returns(f) {
+				if len(ret.Results) != 1 {
+					return nil
+				}
+				for _, rv := range core.ReturnOperand(ret, 0) {
+					if rv == nil {
+						return nil
+					}
+					for _, ro := range core.Origins(rv, false) {
+						ms, ok := ro.(*ssa.MakeSlice)
+						if !ok {
+							return nil
+						}
+						_, i := e19ParamIndex(ms.Len)
+						if i < 0 || (pi >= 0 && pi != i) {
+							return nil
+						}
+						pi = i
+					}
+				}
+			}
+			if pi < 0 {
+				return nil
+			}
+			out = append(out, x.Common().Args[pi])
+		default:
+			return nil
+		}
+	}
+	return out
+}
+
+// e19ThroughLocalStore: v is a load of a slot (field / element) that this
+// function assigned just before on every path (a store to the same slot
+// dominates the load and no other store to it lies in between): the stored value.
+func e19ThroughLocalStore(v ssa.Value) ssa.Value {
+	for d := 0; d < 3; d++ {
+		ld, ok := v.(*ssa.UnOp)
+		if !ok || ld.Op != token.MUL {
+			return v
+		}
+		sameSlot := func(addr ssa.Value) bool {
+			switch x := ld.X.(type) {
+			case *ssa.FieldAddr:
+				y, ok := addr.(*ssa.FieldAddr)
+				return ok && x.Field == y.Field && core.SameVal(x.X, y.X)
+			case *ssa.IndexAddr:
+				y, ok := addr.(*ssa.IndexAddr)
+				return ok && core.SameVal(x.Index, y.Index) && (core.SameVal(x.X, y.X) || e19SameBase(x.X, y.X))
+			}
+			return false
+		}
+		var best *ssa.Store
+		var others []*ssa.Store
+		for _, b := range ld.Parent().Blocks {
+			for _, in := range b.Instrs {
+				st, ok := in.(*ssa.Store)
+				if !ok || !sameSlot(st.Addr) {
+					continue
+				}
+				if core.Dominates(st, ld) {
+					if best == nil || core.Dominates(best, st) {
+						best = st
+					}
+				}
+				others = append(others, st)
+			}
+		}
+		if best == nil {
+			return v
+		}
+		for _, o := range others {
+			if o != best && core.Reachable(best, o, func(i ssa.Instruction) bool { return i == ld }) && core.Reachable(o, ld, nil) {
+				return v
+			}
+		}
+		v = best.Val
+	}
+	return v
+}
+
+func e19ParentOf(v ssa.Value) *ssa.Function {
+	if in, ok := v.(ssa.Instruction); ok {
+		return in.Parent()
+	}
+	return v.Parent()
 }
 
 func e19LastInstr(b *ssa.BasicBlock) ssa.Instruction { return b.Instrs[len(b.Instrs)-1] }
@@ -277,6 +927,16 @@ func (p *e19Prover) le1(v ssa.Value, t e19Term, strict bool, facts []core.Fact, 
 	p.busy[key] = true
 	defer delete(p.busy, key)
 
+	// 0. the length of a record of a fixed (rectangular) view is the length of its header
+	if t.val == nil && t.minus == nil && t.base != nil {
+		if bi, ok := t.base.(ssa.Instruction); ok {
+			if vw := e19RecordOfFixedView(t.base, bi); vw != nil {
+				if p.le(v, e19Term{obj: vw, fkey: "lib/query.View.Header"}, strict, facts, at, d+1) {
+					return true
+				}
+			}
+		}
+	}
 	// 1. v is the target itself
 	if p.matches(v, t) {
 		return !strict
@@ -313,6 +973,40 @@ func (p *e19Prover) le1(v ssa.Value, t e19Term, strict bool, facts []core.Fact, 
 			}
 		}
 	}
+	// 1c. exact lengths of slices made here: len(make(T, L)) is L — also through a
+	// constructor whose every return is make(T, p) of one of its parameters
+	if d < 8 && t.minus == nil {
+		if t.val == nil && t.base != nil {
+			if ls := e19MadeLens(p.c, t.base); len(ls) > 0 {
+				all := true
+				for _, l := range ls {
+					if !p.le(v, e19Term{val: l}, strict, facts, at, d+1) {
+						all = false
+						break
+					}
+				}
+				if all {
+					return true
+				}
+			}
+		}
+		if lc, ok := v.(*ssa.Call); ok {
+			if b, isB := lc.Common().Value.(*ssa.Builtin); isB && b.Name() == "len" {
+				if ls := e19MadeLens(p.c, lc.Common().Args[0]); len(ls) > 0 {
+					all := true
+					for _, l := range ls {
+						if !p.le(l, t, strict, facts, at, d+1) {
+							all = false
+							break
+						}
+					}
+					if all {
+						return true
+					}
+				}
+			}
+		}
+	}
 	// 2. intervals
 	if t.minus == nil && (t.val != nil || t.base != nil) {
 		a := p.e.Eval(v, at, core.KInt)
@@ -327,6 +1021,16 @@ func (p *e19Prover) le1(v ssa.Value, t e19Term, strict bool, facts []core.Fact, 
 		}
 		if !math.IsInf(a.Hi, 0) && ((strict && a.Hi < tl.Lo) || (!strict && a.Hi <= tl.Lo)) {
 			return true
+		}
+	}
+	// 2b. a lower bound of the length term from dominating comparisons of the
+	// length itself (len(x), or a len getter such as view.RecordLen()) with constants
+	if t.minus == nil && t.val == nil {
+		a := p.e.Eval(v, at, core.KInt)
+		if lo, ok := p.lenLowerFromFacts(t, facts); ok && !a.Bot && !math.IsInf(a.Hi, 0) {
+			if (strict && a.Hi < lo) || (!strict && a.Hi <= lo) {
+				return true
+			}
 		}
 	}
 	// 3. dominating comparisons of v
@@ -398,6 +1102,46 @@ func (p *e19Prover) le1(v ssa.Value, t e19Term, strict bool, facts []core.Fact, 
 				}
 				if okAll {
 					return true
+				}
+			}
+		}
+	}
+	// 3b'. the same for the LENGTH of a slice parameter: len(p) is bounded if at every
+	// call site the argument was made there with a length that is (make([]bool, view.RecordLen());
+	// view.retain(flags)).
+	if ot, ok := t.objTerm(); ok && d < 8 && t.minus == nil {
+		if lc, isCall := v.(*ssa.Call); isCall {
+			if b, isB := lc.Common().Value.(*ssa.Builtin); isB && b.Name() == "len" {
+				if pv, pi := e19ParamIndex(lc.Common().Args[0]); pv != nil {
+					if _, oi := e19ParamIndex(ot.obj); oi >= 0 && ot.obj.Parent() == pv.Parent() {
+						fn := pv.Parent()
+						edges := p.c.P.RealCallers(fn)
+						okAll := len(edges) > 0 && len(edges) <= 8 && fn.Parent() == nil && fn.Object() != nil && !fn.Object().Exported()
+						for _, ed := range edges {
+							if !okAll {
+								break
+							}
+							site, isCall := ed.Site.(*ssa.Call)
+							if !isCall || site.Common().StaticCallee() != fn || len(site.Common().Args) != len(fn.Params) {
+								okAll = false
+								break
+							}
+							ls := e19MadeLens(p.c, site.Common().Args[pi])
+							if len(ls) == 0 {
+								okAll = false
+								break
+							}
+							ct := e19Term{obj: site.Common().Args[oi], fkey: ot.fkey}
+							for _, l := range ls {
+								if !p.le(l, ct, strict, core.FactsAt(site.Block()), site, d+1) {
+									okAll = false
+								}
+							}
+						}
+						if okAll {
+							return true
+						}
+					}
 				}
 			}
 		}
@@ -554,6 +1298,53 @@ func (p *e19Prover) le1(v ssa.Value, t e19Term, strict bool, facts []core.Fact, 
 		}
 	}
 	return false
+}
+
+// lenLowerFromFacts: the largest lower bound of the length term that the facts
+// establish by comparing the length with a constant (switch / if on len or a getter).
+func (p *e19Prover) lenLowerFromFacts(t e19Term, facts []core.Fact) (float64, bool) {
+	best, found := 0.0, false
+	for _, f := range facts {
+		b, ok := f.Cond.(*ssa.BinOp)
+		if !ok {
+			continue
+		}
+		op := b.Op
+		var o ssa.Value
+		switch {
+		case p.matches(b.X, t):
+			o = b.Y
+		case p.matches(b.Y, t):
+			o = b.X
+			op = e19Flip(op)
+		default:
+			continue
+		}
+		k, isK := core.ConstInt(o)
+		if !isK {
+			continue
+		}
+		if f.Neg {
+			op = e19Neg(op)
+		}
+		lo := -1.0
+		switch op {
+		case token.GTR:
+			lo = float64(k + 1)
+		case token.GEQ, token.EQL:
+			lo = float64(k)
+		case token.NEQ:
+			if k == 0 {
+				lo = 1
+			}
+		}
+		if lo > best || !found && lo >= 0 {
+			if lo >= 0 {
+				best, found = lo, true
+			}
+		}
+	}
+	return best, found
 }
 
 func e19Flip(op token.Token) token.Token {
